@@ -23,6 +23,7 @@ import (
 	"encoding/json"
 	"fmt"
 	"os"
+	"regexp"
 	"sort"
 	"strconv"
 	"strings"
@@ -189,6 +190,8 @@ func (s *c18Core) snapshot() []c18Ev {
 	return append([]c18Ev(nil), s.evs...)
 }
 
+var c18TimeRe = regexp.MustCompile(`'\d{4}-\d\d-\d\d[ T]\d\d:\d\d:\d\d(\.\d+)?Z?'`)
+
 func c18Classify(sql string) (cls, verb string) {
 	up := strings.ToUpper(strings.TrimSpace(sql))
 	switch {
@@ -255,7 +258,9 @@ func (s *c18Core) stmt(c *c18ConnSt, sql string, mode int) c18Reply {
 		rep.Tx = c.tx
 		return rep
 	}
-	ev := c18Ev{Conn: c.id, Cls: cls, InTx: c.tx != 'I', Text: text, Ins: verb == "INSERT" && cls == "write"}
+	// wall-clock values the adapter puts into the SQL text (types.TimeNow) are masked so that the
+	// recorded trace is a pure function of the case
+	ev := c18Ev{Conn: c.id, Cls: cls, InTx: c.tx != 'I', Text: c18TimeRe.ReplaceAllString(text, "'<time>'"), Ins: verb == "INSERT" && cls == "write"}
 	if cls != "rollback" {
 		s.pos++
 		ev.Pos = s.pos
@@ -1138,6 +1143,20 @@ func c18GenScript(rt *rapid.T) c18Script {
 	return s
 }
 
+// c18Pick draws an index in [0,n) almost uniformly. rapid's integer generators (IntRange,
+// SampledFrom, Uint64) are deliberately biased towards small values and range ends — with them
+// a third of all cases were "first operation of the catalogue, k = 1 or no fault". rapid.Bool
+// is a fair coin, so twelve of them give a uniform 12-bit number; it still shrinks to index 0.
+func c18Pick(rt *rapid.T, label string, n int) int {
+	v := 0
+	for i := 0; i < 12; i++ {
+		if rapid.Bool().Draw(rt, label) {
+			v |= 1 << i
+		}
+	}
+	return v % n
+}
+
 func c18GenCase(rt *rapid.T) *c18Case {
 	// transactional operations are drawn four times as often as the single-statement extras
 	var names []string
@@ -1147,7 +1166,7 @@ func c18GenCase(rt *rapid.T) *c18Case {
 			names = append(names, o.Name, o.Name, o.Name)
 		}
 	}
-	c := &c18Case{Op: rapid.SampledFrom(names).Draw(rt, "op")}
+	c := &c18Case{Op: names[c18Pick(rt, "op", len(names))]}
 	c.A = c18Ops[c.Op].Gen(rt)
 	c.S = c18GenScript(rt)
 	dry := c18Dry(c) // fault-free run, to learn the number of statements n
@@ -1155,15 +1174,14 @@ func c18GenCase(rt *rapid.T) *c18Case {
 	if len(pos) == 0 {
 		return c
 	}
-	// Fault position: rapid's integer generators favour the low end of a range, so the
-	// candidates are ordered with the interesting ones first: positions 2..n (something may
-	// already have been written), then 1 (BEGIN fails), then 0 (no fault at all).
+	// Fault position: 2..n (something may already have been written; weight 3 each), 1 (BEGIN
+	// fails) or 0 (no fault at all).
 	var cands []int
 	for k := 2; k <= len(pos); k++ {
-		cands = append(cands, k)
+		cands = append(cands, k, k, k)
 	}
 	cands = append(cands, 1, 0)
-	c.K = cands[rapid.IntRange(0, len(cands)-1).Draw(rt, "kIdx")]
+	c.K = cands[c18Pick(rt, "kIdx", len(cands))]
 	if c.K == 0 {
 		return c
 	}
@@ -1171,7 +1189,7 @@ func c18GenCase(rt *rapid.T) *c18Case {
 	if pos[c.K-1].Ins {
 		kinds = append(kinds, "dup", "dup")
 	}
-	c.Kind = rapid.SampledFrom(kinds).Draw(rt, "kind")
+	c.Kind = kinds[c18Pick(rt, "kind", len(kinds))]
 	return c
 }
 
